@@ -978,6 +978,16 @@ func (t *fnTr) externCall(x *ast.CallExpr) (*extCall, bool) {
 		t.unsupported(x, "external call with this signature")
 	}
 	name := "ext_" + fn.Name()
+	if r := sig.Recv(); r != nil {
+		// methods of the same name on different receivers (Map.XmlIndent, MapSeq.XmlIndent) are different functions
+		rt := r.Type()
+		if pt, ok := rt.(*types.Pointer); ok {
+			rt = pt.Elem()
+		}
+		if n, ok := rt.(*types.Named); ok {
+			name = "ext_" + n.Obj().Name() + "_" + fn.Name()
+		}
+	}
 	typ := strings.Join(append(tys, rty), " -> ")
 	found := false
 	for _, e := range *t.externs {
@@ -2564,7 +2574,7 @@ func constTable(p *pkgInfo, vs *ast.ValueSpec, i int) (string, bool) {
 
 // the functions translated into Pure_gen.v ("Recv.Method" for methods)
 var pureFuncs = []string{"cast", "escapeChars", "parsePath", "getSubKeyMap", "hasSubKeys", "Map.PathForKeyShortest", "valuesForKeyPath", "hasKey", "hasKeyPath", "getLeafNodes",
-	"Map.ValuesForKey", "Map.oldValuesForPath", "Map.ValuesForPath", "Map.LeafNodes", "getJson", "NewMapJsonReader", "NewMapJsonReaderRaw", "Map.Exists", "Map.ValueForPath", "Map.ValueForKey", "Map.LeafPaths", "Map.LeafValues", "valuesForArray", "Map.PathsForKey", "byteReader.ReadByte", "teeReader.ReadByte", "Maps.JsonString", "Maps.JsonStringIndent", "Maps.XmlString", "Maps.XmlStringIndent"}
+	"Map.ValuesForKey", "Map.oldValuesForPath", "Map.ValuesForPath", "Map.LeafNodes", "getJson", "NewMapJsonReader", "NewMapJsonReaderRaw", "Map.Exists", "Map.ValueForPath", "Map.ValueForKey", "Map.LeafPaths", "Map.LeafValues", "valuesForArray", "Map.PathsForKey", "byteReader.ReadByte", "teeReader.ReadByte", "Maps.JsonString", "Maps.JsonStringIndent", "Maps.XmlString", "Maps.XmlStringIndent", "BeautifyXml", "Map.Copy", "Map.Json", "Map.Root", "NewMapXml", "NewMapXmlSeq", "lastKey"}
 
 func genPure(p *pkgInfo) string {
 	vars, _ := pkgVars(p)
